@@ -135,6 +135,9 @@ func RunFixed(cfg *engine.Config, tmpl, asg *data.Loaded, pub [4]*big.Int) error
 	return solve(mk(tmpl), mk(asg))
 }
 
+// Solve evaluates an arbitrary harness circuit on gnark's test engine.
+func Solve(c, w frontend.Circuit) error { return solve(c, w) }
+
 func solve(c, w frontend.Circuit) (err error) {
 	defer func() {
 		if r := recover(); r != nil {
